@@ -5,7 +5,9 @@
   A trace is the function body in source order reduced to: Lock / Unlock / deferred Unlock, block
   structure (if / else / for / switch+case / closure), the ways of leaving (return, break, continue,
   goto + label, panic) and every access to state shared between a connection's own thread and the
-  threads that walk the connection list, tagged with the lock that protects it.
+  threads that walk the connection list (inv bookkeeping, block downloads in progress, the peers database,
+  the statistics map `counters` that the UI thread's GetStats ranges over), tagged with the lock that
+  protects it.
 
   `scan` keeps the set of locks TAKEN IN THIS FUNCTION and reports
     * a return (or the end of the body) with such a lock still held and no deferred Unlock for it,
@@ -213,6 +215,28 @@ def shapeCallUnlocked : List Tok :=
     Unlock: every exit is fine, but DoS waits for the mutex its caller holds -/
 def shapeCallDeferred : List Tok :=
   [(0, "c.Mutex"), (2, "c.Mutex"), (3, "if"), (12, "c.Mutex"), (5, ""), (4, "if")]
+
+/-! ### the statistics map `counters` (GetStats ranges over it under c.Mutex; a count outside the mutex is a
+    fatal "concurrent map iteration and map write" of the Go runtime). A call of a counter helper
+    (`Gen.NetFacts.counterHelpers`: cntInc / cntAdd, which write the map with no lock of their own) and every
+    mention of the field is a token 9 needing the connection's mutex. -/
+
+/-- ProcessBlockTxn's trace as gen_c18 produced it from the source BEFORE /repo fix 6fde6594 (regenerated from
+    that commit's parent, verbatim): `Lock; if bip == nil { Unlock; cntInc; Misbehave; return }` twice -/
+def oldProcessBlockTxn : List Tok :=
+  [(3, "if"), (12, "c.Mutex"), (5, ""), (4, "if"), (3, "if"), (12, "c.Mutex"), (5, ""), (4, "if"), (0, "MutexRcv"), (2, "MutexRcv"), (0, "c.Mutex"), (3, "if"), (1, "c.Mutex"), (9, "c.Mutex"), (12, "c.Mutex"), (5, ""), (4, "if"), (3, "if"), (1, "c.Mutex"), (9, "c.Mutex"), (12, "c.Mutex"), (5, ""), (4, "if"), (9, "c.Mutex"), (1, "c.Mutex"), (3, "if"), (5, ""), (4, "if"), (3, "if"), (5, ""), (4, "if"), (3, "if"), (4, "if"), (3, "for"), (3, "if"), (12, "c.Mutex"), (5, ""), (4, "if"), (3, "if"), (4, "if"), (3, "else"), (5, ""), (4, "else"), (4, "for"), (3, "for"), (3, "if"), (12, "c.Mutex"), (5, ""), (4, "if"), (4, "for"), (3, "if"), (3, "if"), (3, "if"), (4, "if"), (4, "if"), (3, "else"), (4, "else"), (5, ""), (4, "if"), (0, "c.Mutex"), (9, "c.Mutex"), (1, "c.Mutex"), (3, "if"), (4, "if")]
+/-- SendGetMP's trace before that fix: `TxMutex.Lock; if full { TxMutex.Unlock; cntInc; return }` - no c.Mutex at all -/
+def oldSendGetMP : List Tok :=
+  [(3, "if"), (5, ""), (4, "if"), (0, "txpool.TxMutex"), (3, "if"), (1, "txpool.TxMutex"), (9, "c.Mutex"), (5, ""), (4, "if"), (3, "if"), (4, "if"), (3, "for"), (3, "if"), (6, "break"), (4, "if"), (4, "for"), (3, "for"), (3, "if"), (6, "break"), (4, "if"), (4, "for"), (1, "txpool.TxMutex"), (12, "c.Mutex"), (5, "")]
+/-- `Lock; if bip == nil { cntInc; Unlock; Misbehave; return }; …; Unlock` — the repaired shape (count, then Unlock) -/
+def shapeCountThenUnlock : List Tok :=
+  [(0, "c.Mutex"), (3, "if"), (9, "c.Mutex"), (1, "c.Mutex"), (12, "c.Mutex"), (5, ""), (4, "if"), (1, "c.Mutex")]
+/-- `TxMutex.Lock; if full { TxMutex.Unlock; cntLockInc; return }` — the repaired SendGetMP: the locking variant is a
+    call of a function that takes c.Mutex itself (token 12), fine while c.Mutex is not held -/
+def shapeCountLocking : List Tok :=
+  [(0, "txpool.TxMutex"), (3, "if"), (1, "txpool.TxMutex"), (12, "c.Mutex"), (5, ""), (4, "if"), (1, "txpool.TxMutex")]
+/-- the locking variant called with c.Mutex held: self-deadlock -/
+def shapeCountLockingHeld : List Tok := [(0, "c.Mutex"), (12, "c.Mutex"), (1, "c.Mutex")]
 
 /-- `Lock; if missing { panic(…) }; Unlock` — ProcessCmpctBlock's second pass: the lock stays held -/
 def shapePanicHeld : List Tok := [(0, "TxMutex"), (3, "if"), (11, ""), (4, "if"), (1, "TxMutex")]
